@@ -392,13 +392,25 @@ func (p *printer) ruleValue(r *ref.SRule, spread bool, level int) {
 		p.w("[")
 		for i, it := range r.Or {
 			if i > 0 {
-				p.w(", ")
+				p.w(",")
+				if !spread {
+					p.w(" ")
+				}
+			}
+			if spread {
+				// one alternative per line, the rules of a rule set one per line as well
+				p.w(p.st.NL)
+				p.indent(level + 3)
 			}
 			if it.Name != "" {
 				p.w(`"` + it.Name + `"`)
 			} else {
-				p.ruleObject(it.Rules, false, level)
+				p.ruleObject(it.Rules, spread, level+2)
 			}
+		}
+		if spread {
+			p.w(p.st.NL)
+			p.indent(level + 2)
 		}
 		p.w("]")
 	case ref.RVAllOf:
